@@ -47,6 +47,7 @@ func checkC20(c *core.Ctx, r *core.Report) {
 	c20NotifyState(c, r)
 	c20Stores(c, r)
 	c20AliasRoles(c, r)
+	c20AliasPairScope(c, r)
 }
 
 // c20NotifyState: the notification row's last_sent_time / last_alert_state are read by shouldSendNotification as
@@ -774,6 +775,36 @@ func c20Window(c *core.Ctx, r *core.Report) {
 		}
 	}
 	r.Check(okRange, "WINDOW", name+":scans-every-returned-row", c.Pos(scanTest.Pos()), "the scan ranges over all returned rows", "the scan does not range over all returned rows")
+	// ... and no row is passed over: inside the scan loop no path from the loop header back to it avoids the state test
+	// (the query returns exactly the last N-1 rows; a skipped row silently shrinks the window)
+	{
+		skipped := false
+		seen := map[*ssa.BasicBlock]bool{}
+		var work []*ssa.BasicBlock
+		for _, sc := range scan.Header.Succs {
+			if scan.Body[sc] {
+				work = append(work, sc)
+				seen[sc] = true
+			}
+		}
+		for len(work) > 0 {
+			x := work[len(work)-1]
+			work = work[:len(work)-1]
+			if x == scanTest.Block() {
+				continue
+			}
+			for _, sc := range x.Succs {
+				if sc == scan.Header {
+					skipped = true
+				}
+				if scan.Body[sc] && !seen[sc] && sc != scan.Header {
+					seen[sc] = true
+					work = append(work, sc)
+				}
+			}
+		}
+		r.Check(!skipped, "WINDOW", name+":no-returned-row-is-passed-over", c.Pos(scanTest.Pos()), "every iteration of the scan reaches the state test", "the scan can move on to the next history row without testing the current one: the query returns exactly the last N-1 rows, so every row that is passed over shortens the window and the alert fires after fewer than N positive evaluations")
+	}
 	// every `return true` is the N==1 shortcut or follows exhaustion of the scan and the row-count test
 	var lenGuard bool
 	for _, b := range fn.Blocks {
@@ -1736,6 +1767,77 @@ func c20SamePath(c *core.Ctx, r *core.Report) {
 // parameter of the alias API, a key level of aliasToIndexNames, or a key of a set returned by GetAliases
 // carries the role ALIAS or INDEX; at every call of the alias API the role of each argument must be the
 // role of the parameter.
+// c20AliasPairScope: an alias can point to several indexes (aliasToIndexNames[org][alias] is a set of index names).
+// A function whose contract is about ONE index (it takes the index name: AddAliases, RemoveAliases) may therefore
+// remove only the (alias, index) pair: every deletion it makes below aliasToIndexNames is at the innermost level
+// (from the set of index names), or removes an alias entry only where that set is known to be empty.
+func c20AliasPairScope(c *core.Ctx, r *core.Report) {
+	aliasG := c.Global(pkgVtable, "aliasToIndexNames")
+	n := 0
+	for _, name := range []string{"AddAliases", "RemoveAliases"} {
+		fn := c.Fn(pkgVtable, name)
+		k := 0
+		for _, ci := range core.CallsIn(fn) {
+			bi, ok := ci.Common().Value.(*ssa.Builtin)
+			if !ok || bi.Name() != "delete" {
+				continue
+			}
+			m := ci.Common().Args[0]
+			// below aliasToIndexNames?
+			below := false
+			for x, i := m, 0; x != nil && i < 6; i++ {
+				switch y := x.(type) {
+				case *ssa.Lookup:
+					x = y.X
+					continue
+				case *ssa.Extract:
+					x = y.Tuple
+					continue
+				case *ssa.UnOp:
+					if y.X == ssa.Value(aliasG) {
+						below = true
+					}
+				}
+				break
+			}
+			if !below {
+				continue
+			}
+			n++
+			k++
+			mt, _ := m.Type().Underlying().(*types.Map)
+			innermost := false
+			if mt != nil {
+				if eb, ok := mt.Elem().Underlying().(*types.Basic); ok && eb.Kind() == types.Bool {
+					innermost = true
+				}
+			}
+			emptyKnown := false
+			if !innermost {
+				for _, b := range fn.Blocks {
+					for _, in := range b.Instrs {
+						cmp, ok := in.(*ssa.BinOp)
+						if !ok || cmp.Op != token.EQL {
+							continue
+						}
+						if lc, ok := cmp.X.(*ssa.Call); ok {
+							if lb, ok := lc.Call.Value.(*ssa.Builtin); ok && lb.Name() == "len" {
+								if kv, ok := core.ConstIntValue(cmp.Y); ok && kv == 0 && core.BoolKnownAt(cmp, ci.Block()) == core.Yes {
+									emptyKnown = true
+								}
+							}
+						}
+					}
+				}
+			}
+			r.Check(innermost || emptyKnown, "ROLE", fmt.Sprintf("%s:alias-map-deletion#%d-removes-one-pair", shortFn(fn), k), c.Pos(ci.Pos()),
+				"the deletion is made in the alias's set of index names (or removes an alias whose set is known to be empty)",
+				"a function that is told about one index removes a whole alias entry from the alias table: every other index that shares the alias loses it too (searches through the alias miss their data, and the next clean shutdown rewrites their alias files without it)")
+		}
+	}
+	r.Floor("ROLE", "deletions below aliasToIndexNames in the per-index alias functions", n, 1)
+}
+
 func c20AliasRoles(c *core.Ctx, r *core.Report) {
 	const (
 		rNone = iota
